@@ -988,7 +988,10 @@ Definition finalize_node (T : Z) (nd : node) : option node :=
   match nk nd with
   | NMachine =>
       match nlast nd with
-      | None => None                                  (* T - None: TypeError *)
+      | None =>                                       (* still in set-up: the elapsed time is set-up time *)
+          if negb (Nat.eqb (nnumw nd) (length (r_users (nres nd)))) then None else
+          Some (nd <| ntstate ::= upd 0%nat (fun v => v + T) |>
+                   <| nocchist ::= upd (nnumw nd) (fun v => v + (T - nocclast nd)) |> <| nocclast := T |>)
       | Some l =>
           let d := T - l in
           let np := Z.of_nat (length (filter (fun x => negb (snd x)) (nthreads nd))) in
